@@ -180,7 +180,9 @@ def run(ck):
             # allowed callers of the consumer function
             callers = {prog.owner(x.func).base for x in prog.call_sites(f.base)}
             allowed = {owner + "::onReady", owner + "::flush", f.base}
-            extra = callers - allowed
+            # a private helper of the owner that onReady / flush were split into counts as its callers
+            extra = {c_ for c_ in callers - allowed
+                     if not (c_.startswith(owner + "::") and all(lib.only_reached_from(prog, g_, allowed) for g_ in prog.by_base.get(c_, [])))}
             ck.ob("C13-R4", "consumer-callers:" + f.base, not extra, f.loc, f, "called from %s" % sorted(callers))
             # R3: loop until null
             okd, why = lib.drain_loop_check(f, e)
